@@ -32,7 +32,7 @@ META = {
     "specs": ["HtmlBlocks", "HtmlBlocksTrace", "OptTokOps"],
 }
 
-ELEMS = ["img", "admon", "div", "text", "ws"]
+ELEMS = ["img", "admon", "div", "text", "ws", "comment"]
 ATTR_SIGMA = "a #'\"|>:-\n[*\\"
 FILTER_SIGMA = ["<", "/", "S", "s", " ", ">", "x"]
 DISALLOWED = ["script", "iframe", "title", "textarea", "xmp", "style", "noembed", "noframes", "plaintext"]
@@ -47,9 +47,9 @@ def base_consts(part, **kw):
 def elem_text(kind, n, upper=False):
     if upper:       # HTML names are case-insensitive
         return {"img": f'<IMG SRC="i{n}.png" ALT="A{n}x">', "admon": f'<DIV CLASS="admonition">\n<P CLASS="title">T{n}x</P>\nB{n}x *em*\n</DIV>',
-                "div": f"<Div>D{n}x</Div>", "text": f"X{n}x", "ws": " \n "}[kind]
+                "div": f"<Div>D{n}x</Div>", "text": f"X{n}x", "ws": " \n ", "comment": f"<!-- C{n}x -->"}[kind]
     return {"img": f'<img src="i{n}.png" alt="A{n}x">', "admon": f'<div class="admonition">\n<p class="title">T{n}x</p>\nB{n}x *em*\n</div>',
-            "div": f"<div>D{n}x</div>", "text": f"X{n}x", "ws": " \n "}[kind]
+            "div": f"<div>D{n}x</div>", "text": f"X{n}x", "ws": " \n ", "comment": f"<!-- C{n}x -->"}[kind]
 
 
 # fragments that end inside a construct: what they leave behind must not reach the next fragment
@@ -268,6 +268,9 @@ def run(ctx):
           # white space between two inline elements inside a paragraph of the body
           ('<div class="admonition">\n<p class="title">Keys</p>\n<p>Press <kbd>Ctrl</kbd> <kbd>C</kbd> then <em>a</em> <em>b</em></p>\n</div>\n',
            "```{admonition} Keys\n:class: admonition\nPress <kbd>Ctrl</kbd> <kbd>C</kbd> then <em>a</em> <em>b</em>\n```\n", ["html_admonition"]),
+          # an image with an EMPTY alt text inside an admonition body (the body is re-rendered from the tree and parsed again)
+          ('<div class="admonition tip">\n<p class="title">Layout</p>\n<p>A divider <img src="d.png" alt="" width="80px"> here</p>\n</div>\n',
+           "```{admonition} Layout\n:class: admonition tip\nA divider <img src=\"d.png\" alt=\"\" width=\"80px\"> here\n```\n", ["html_admonition", "html_image"]),
           ('<div class="admonition">\n<p class="title">T &lt;i&gt; and &amp;amp;</p>\nB &#42;x&#42; then &amp;lt;b&amp;gt; and &copy; end\n</div>\n',
            "```{admonition} T &lt;i&gt; and &amp;amp;\n:class: admonition\nB &#42;x&#42; then &amp;lt;b&amp;gt; and &copy; end\n```\n", ["html_admonition"])]
     for h, dsp, exts in eq:
